@@ -101,10 +101,8 @@ def discharge_texts(items, timeout=10, jobs=16, both=False):
     with ThreadPoolExecutor(max_workers=jobs) as ex:
         for i, r in ex.map(work, range(len(items))):
             results[i] = r
-    try:
-        os.rmdir(workdir)
-    except OSError:
-        pass
+    import shutil
+    shutil.rmtree(workdir, ignore_errors=True)       # query files of every stage (nothing of a finished run is kept under /tmp)
     return results
 
 
@@ -166,8 +164,6 @@ def discharge(obligs, axioms=(), timeout=10, jobs=16, both=False, rounds=2, keep
             if keep_text:
                 r['smt2'] = texts[i]
             results[i] = r
-    try:
-        os.rmdir(workdir)
-    except OSError:
-        pass
+    import shutil
+    shutil.rmtree(workdir, ignore_errors=True)       # query files of every stage (nothing of a finished run is kept under /tmp)
     return results
